@@ -158,6 +158,11 @@ static void vh_load_nonce_seq(const jv *in, vh_nonce_seq *s) {
 #else
 #define VH_OPS_KERNEL
 #endif
+#ifdef VH_G_SCRATCH
+#include "ops_scratch.h"
+#else
+#define VH_OPS_SCRATCH
+#endif
 #ifdef VH_G_UNTRUSTED
 #include "ops_untrusted.h"
 #else
@@ -188,6 +193,7 @@ static const vh_op OPS[] = {
     VH_OPS_MUSIGNONCE
     VH_OPS_CTX
     VH_OPS_KERNEL
+    VH_OPS_SCRATCH
     VH_OPS_UNTRUSTED
     VH_OPS_CT
     { NULL, NULL }
